@@ -238,6 +238,9 @@ def replay_of(p, cfg, ru, extra=None):
 def gen_history(r, long_p=0.08):
     """steps of one HIST command: several solves of one LP on one object with parameter changes in between.
     Only parameters are changed, so every answer is still an answer about the same LP."""
+    if r.random() < 0.12:
+        # scaler walk: a scaler, then none (the exponents stay behind in the LP), then another one that may decide not to scale
+        return ["persistentscaling=1", "scaler=%d" % r.choice([1, 2, 5, 6]), "OPT", "scaler=0", "OPT", "scaler=%d" % r.choice([3, 4, 3, 4, 1, 6]), "OPT"]
     n = r.randrange(12, 16) if r.random() < long_p else r.randrange(2, 6)
     steps = []
     for k, vs in lpgen.ALGO_SPACE.items():
